@@ -39,6 +39,9 @@ def _match_known(entry, pid, kind, case, detail):
 
 
 class Violation:
+    part = None
+    context = None
+
     def __init__(self, kind, case, detail):
         self.kind = kind          # short class name of the failed obligation
         self.case = case          # JSON-serialisable input / history / schedule
@@ -76,6 +79,8 @@ class Run:
         self.violations = {}
         self.skipped = []
         self.outcomes = 0
+        self._rerun = {}
+        self._rerun_keys = {}
 
     # ----- coverage ------------------------------------------------------
     def add_part(self, name, res):
@@ -100,7 +105,10 @@ class Run:
             self.caps_hit.append(name)
         for s in res.samples:
             self.samples.append({'part': name, 'case': s})
+        if getattr(res, 'rerun', None) is not None:
+            self._rerun[name] = res.rerun
         for v in res.violations:
+            v.part = name
             self.violations.setdefault(v.key(), v)
 
     def violation(self, kind, case, detail):
@@ -149,16 +157,33 @@ class Run:
             n_new += 1
             if reported >= MAX_REPORTED:
                 continue
-            if replay_fn is not None:
+            if replay_fn is not None and v.kind != 'timeout':
+                # in a forked child: confirming a witness must not touch this process's copy of the code under test
+                from . import explore
                 try:
-                    again = replay_fn(v.case)
+                    again = explore._fork_map(lambda r, c=v.case: [(x.kind, x.case, x.detail) for x in replay_fn(c)], 1)[0]
+                    again = [Violation(*t) for t in again]
                 except Exception as ex:  # replay itself crashed
-                    again = [Violation(v.kind, v.case, {'exception': repr(ex)})]
+                    again = [Violation(v.kind, v.case, {'exception': repr(ex)[:500]})]
                 if not any(a.kind == v.kind for a in again):
-                    print('HARNESS-ERROR property=%s violation kind=%s did not reproduce: %s'
-                          % (self.pid, v.kind, _canon(v.case)[:300]))
-                    harness_error = True
-                    continue
+                    # Not reproducible from a fresh start.  The tool may carry state from one case to the next
+                    # (module-level caches, shared defaults): re-run the exploration that found it, from the same
+                    # starting state, and accept the violation only if the identical witness fails again.
+                    part = getattr(v, 'part', None)
+                    if part in self._rerun and part not in self._rerun_keys:
+                        try:
+                            self._rerun_keys[part] = {x.key() for x in self._rerun[part]().violations}
+                        except Exception:
+                            self._rerun_keys[part] = set()
+                    if v.key() in self._rerun_keys.get(part, ()):
+                        v.detail = dict(v.detail, reproduces='only within the exploration that found it: the tool carries state '
+                                        'between cases (fails again, identically, when part %r is re-run)' % part)
+                        v.context = {'part': part, 'tier': self.tier}
+                    else:
+                        print('HARNESS-ERROR property=%s violation kind=%s did not reproduce: %s'
+                              % (self.pid, v.kind, _canon(v.case)[:300]))
+                        harness_error = True
+                        continue
             path = self.write_replay(v)
             print('VIOLATION property=%s replay=%s' % (self.pid, path))
             print('  kind=%s detail=%s' % (v.kind, _canon(v.detail)[:600]))
@@ -175,6 +200,8 @@ class Run:
         path = os.path.join(d, v.key() + '.json')
         doc = {'property': self.pid, 'tier': self.tier}
         doc.update(v.to_json())
+        if getattr(v, 'context', None):
+            doc['context'] = v.context
         with open(path, 'w') as f:
             json.dump(doc, f, indent=1, sort_keys=True, default=repr)
         test = os.path.join(d, 'test_' + v.key() + '.py')
